@@ -100,6 +100,19 @@ func (x *expander) strD(e ast.Expr, depth int) string {
 		return n.Name
 	case *ast.SelectorExpr:
 		if sel, ok := info.Selections[n]; ok {
+			// v.f where v is bound once to a composite literal that sets f, and nothing in the function stores to a
+			// field named f of that type: the field still holds what the literal gave it
+			if sel.Kind() == types.FieldVal && depth < 32 {
+				if id := identOf(n.X); id != nil {
+					if v, ok := info.Uses[id].(*types.Var); ok && !v.IsField() {
+						if rhs, idx, _, ok := x.def(v); ok && rhs != nil && idx < 0 {
+							if fv := litField(rhs, sel.Obj().Name()); fv != nil && !x.fieldStored(sel.Obj().(*types.Var)) {
+								return x.strD(fv, depth+1)
+							}
+						}
+					}
+				}
+			}
 			return x.strD(n.X, depth) + "." + sel.Obj().Name()
 		}
 		if obj := info.Uses[n.Sel]; obj != nil && obj.Pkg() != nil {
@@ -198,4 +211,14 @@ func litOf(e ast.Expr) *ast.CompositeLit {
 	}
 	cl, _ := e.(*ast.CompositeLit)
 	return cl
+}
+
+// fieldStored: some statement of the function (literals included) stores to this field.
+func (x *expander) fieldStored(fld *types.Var) bool {
+	for _, fs := range x.e.fstores {
+		if fs.field == fld {
+			return true
+		}
+	}
+	return false
 }
